@@ -412,6 +412,43 @@ def check_termination(chk, prog, eff, roots, rule='C06.termination'):
     chk.coverage['loops_classified'] = len(loops)
 
 
+FMT_POS = {'printf': 0, 'fprintf': 1, 'dprintf': 1, 'sprintf': 1, 'snprintf': 2, 'vprintf': 0, 'vfprintf': 1, 'vsprintf': 1, 'vsnprintf': 2,
+           'syslog': 1, 'asprintf': 1}
+
+
+def check_format_literals(chk, prog, eff, roots, rulename='C06.format-literal'):
+    """in everything reachable from the entry point, the format argument of a printf-family call is a string literal (error texts
+    contain bytes of the token: used as a format they are read - and with %n written - through arguments that do not exist)"""
+    seen, parent = eff.reachable(roots)
+    n = 0
+    bad = 0
+
+    def literal(x):
+        x = _strip(x)
+        if x.get('kind') == 'StringLiteral':
+            return True
+        if x.get('kind') == 'ConditionalOperator':
+            return all(literal(y) for y in x['inner'][1:])
+        if x.get('kind') == 'PredefinedExpr':
+            return True
+        return False
+    for k in sorted(seen, key=repr):
+        info = eff.funcs.get(k)
+        if info is None:
+            continue
+        for tgt, node in info['callsites']:
+            pos = FMT_POS.get(tgt[1])
+            if pos is None or len(node.get('inner', ())) <= pos + 1:
+                continue
+            n += 1
+            if not literal(node['inner'][pos + 1]):
+                bad += 1
+                chk.add(Finding(rulename, info['decl'].get('_f'), k[1], 'format-not-literal[%s]' % tgt[1],
+                                '%s() in %s (%s) is given a format that is not a string literal: text that may contain bytes of the token is '
+                                'interpreted as a format' % (tgt[1], k[1], eff.chain(parent, k)), line=node.get('_l')))
+    chk.rule(rulename, 'every printf-family call reachable from the entry point has a string-literal format', n, bad, floor=10)
+
+
 def check_json_terminated(chk, prog, env, model, eff, rulename='C06.decoded-text-terminated'):
     """a decoded segment handed to the JSON parser is a string: a 0 is stored at index == decoded length (inside the decode buffer,
     whose size is decoded length + 1 by C11.sizes) before json_loads reads it"""
@@ -500,6 +537,7 @@ def run(chk, prog, tier):
     check_rejection(chk, prog, env, model)
     eff = effects.Effects(prog)
     chk.guard('decoded text terminated', check_json_terminated, chk, prog, env, model, eff)
+    chk.guard('format literals', check_format_literals, chk, prog, eff, [eff.find('jwt_checker_verify', T.VARIANT_UNIT['checker'])])
     check_termination(chk, prog, eff, [eff.find('jwt_checker_verify', T.VARIANT_UNIT['checker'])])
     chk.assumptions += ['fault model: allocations succeed (the property quantifies over inputs; allocation failure is C17)',
                         'out-of-bounds accesses inside the base64 loops and undefined behaviour in general are NOT decided (would need relational '
